@@ -117,7 +117,15 @@ class DispatchingRequestHandler(BaseHTTPRequestHandler):
             self.send_response(404, response_xml_string)  # not found
             return
 
-        component = self.server.dispatcher.get_instance(self.get_first_path_element())
+        try:
+            component = self.server.dispatcher.get_instance(self.get_first_path_element())
+        except InvalidPathError as ex:
+            self.server.logger.error('invalid path {} (request from {}): {}', self.path, self.client_address, ex.reason)
+            self.send_response(ex.status, ex.reason)
+            self.send_header("Content-type", "text/plain; charset=utf-8")
+            self.send_header("Content-length", "0")
+            self.end_headers()
+            return
 
         peer_name = self.connection.getpeername()
         result = component.do_get(self.headers, self.path, peer_name)
